@@ -103,9 +103,6 @@ theorem no_panic_socks5_server (auth : Bool) (check : Bytes → Bytes → Bool) 
     (finish : Option UInt8) (stream : Bytes) : s5Server auth check tcp udp tcpLocal bound finish stream ≠ .panic :=
   np_s5Server auth check tcp udp tcpLocal bound finish stream
 
-example : s5Server false (fun _ _ => false) true false false [] (some 0) [5, 1, 0, 5, 1, 0, 3, 1, 0x61, 0, 80] =
-    .ok (.dom [0x61] 80, [5, 0, 5, 0, 0, 1, 0, 0, 0, 0, 0, 0]) := by decide
-
 /-! ### direct / none / SOCKS5 packet unpackers -/
 
 theorem no_panic_noneServerUnpack (b : Bytes) (ps pl : Nat) (hb : ps + pl ≤ b.length) : noneServerUnpack b ps pl ≠ .panic :=
@@ -191,7 +188,7 @@ theorem shape_AddrIPPort : Gen.C06.AddrIPPort_shape =
     ["panic"] := by decide
 
 theorem shape_ValidateUnixEpochTimestamp : Gen.C06.ValidateUnixEpochTimestamp_shape =
-    ["call Uint64"] := by decide
+    ["call Uint64", "if diff < -MaxEpochDiff || diff > MaxEpochDiff => return"] := by decide
 
 theorem shape_ParseTCPRequestFixedLengthHeader : Gen.C06.ParseTCPRequestFixedLengthHeader_shape =
     ["b[0]", "b[0]", "b[1:]", "call Uint16", "b[1+8:]"] := by decide
@@ -215,13 +212,13 @@ theorem shape_UDPServerNewUnpacker : Gen.C06.UDPServerNewUnpacker_shape =
     ["if len(b) < nonAEADHeaderLen => return", "b[:UDPSeparateHeaderLength]", "b[UDPSeparateHeaderLength:nonAEADHeaderLen]", "conv (*[IdentityHeaderLength]byte)", "b[:8]"] := by decide
 
 theorem shape_ShadowPacketServerUnpack : Gen.C06.ShadowPacketServerUnpack_shape =
-    ["b[packetStart : packetStart+UDPSeparateHeaderLength]", "separateHeader[4:16]", "b[messageHeaderStart : packetStart+packetLen]", "call Uint64", "separateHeader[8:]", "ciphertext[:0]", "call .MustAdd"] := by decide
+    ["if packetLen < p.nonAEADHeaderLen+p.aead.Overhead() => return", "b[packetStart : packetStart+UDPSeparateHeaderLength]", "separateHeader[4:16]", "b[messageHeaderStart : packetStart+packetLen]", "call Uint64", "separateHeader[8:]", "ciphertext[:0]", "call .MustAdd"] := by decide
 
 theorem shape_ShadowPacketClientUnpack : Gen.C06.ShadowPacketClientUnpack_shape =
-    ["b[packetStart:messageHeaderStart]", "separateHeader[4:16]", "b[messageHeaderStart : packetStart+packetLen]", "call Uint64", "call Uint64", "separateHeader[8:]", "separateHeader[:8]", "ciphertext[:0]", "call .MustAdd"] := by decide
+    ["if packetLen < UDPSeparateHeaderLength+16 => return", "b[packetStart:messageHeaderStart]", "separateHeader[4:16]", "b[messageHeaderStart : packetStart+packetLen]", "call Uint64", "call Uint64", "separateHeader[8:]", "separateHeader[:8]", "ciphertext[:0]", "call .MustAdd"] := by decide
 
 theorem shape_DirectServerPack : Gen.C06.DirectServerPack_shape =
-    ["call .IPPort"] := by decide
+    ["if packetLen > maxPacketLen", "call .IPPort"] := by decide
 
 theorem shape_NoneClientUnpack : Gen.C06.NoneClientUnpack_shape =
     ["b[packetStart : packetStart+packetLen]"] := by decide
@@ -230,10 +227,10 @@ theorem shape_NoneServerUnpack : Gen.C06.NoneServerUnpack_shape =
     ["b[packetStart : packetStart+packetLen]"] := by decide
 
 theorem shape_Socks5ClientUnpack : Gen.C06.Socks5ClientUnpack_shape =
-    ["b[packetStart : packetStart+packetLen]", "pkt[3:]"] := by decide
+    ["if packetLen < 3 => return", "b[packetStart : packetStart+packetLen]", "pkt[3:]"] := by decide
 
 theorem shape_Socks5ServerUnpack : Gen.C06.Socks5ServerUnpack_shape =
-    ["b[packetStart : packetStart+packetLen]", "pkt[3:]"] := by decide
+    ["if packetLen < 3 => return", "b[packetStart : packetStart+packetLen]", "pkt[3:]"] := by decide
 
 theorem shape_ValidatePacketHeader : Gen.C06.ValidatePacketHeader_shape =
     ["b[2]"] := by decide
@@ -284,13 +281,46 @@ theorem shape_serverHandleMethodSelection : Gen.C06.serverHandleMethodSelection_
     ["if len(b) < 1+1+255 => return", "panic", "b[:3]", "b[0]", "b[0]", "b[1]", "b[2]", "b[3 : 3+nmethods-1]", "b[2 : 2+nmethods]", "b[1]", "b[:2]", "b[1]", "b[:2]"] := by decide
 
 theorem shape_serverHandleUsernamePassword : Gen.C06.serverHandleUsernamePassword_shape =
-    ["if len(b) < 1+1+255+1 => return", "panic", "b[:4]", "b[0]", "b[0]", "b[1]", "b[4 : 4+ulen-1]", "b[2:plenIndex]", "b[plenIndex]", "b[2 : 2+plen]", "b[1]", "b[:2]"] := by decide
+    ["if len(b) < 1+1+255+1 => return", "panic", "b[:4]", "b[0]", "b[0]", "b[1]", "if ulen > 1", "b[4 : 4+ulen-1]", "b[2:plenIndex]", "b[plenIndex]", "b[2 : 2+plen]", "b[1]", "b[:2]"] := by decide
 
 theorem shape_serverHandleRequest : Gen.C06.serverHandleRequest_shape =
     ["if len(b) < 3+MaxAddrLen => return", "panic", "b[:5]", "b[0]", "b[0]", "b[3:3]", "b[3:5]", "b[1]", "b[1]", "b[:3]", "b[:1]"] := by decide
 
 theorem shape_replyWithStatus : Gen.C06.replyWithStatus_shape =
     ["b[:replyLen]", "reply[0]", "reply[1]", "reply[2]", "conv (*[IPv4AddrLen]byte)", "reply[3:]"] := by decide
+
+/-! ### Gen side conditions for functions that are fuzzed but NOT modelled: their panic-relevant fingerprint
+is the one that was read and fuzzed (a change re-opens the obligation; no no-panic theorem is claimed for them) -/
+
+theorem audited_shape_hostHeaderToAddr : Gen.C06.hostHeaderToAddr_shape =
+    ["host[0]", "host[len(host)-1]", "host[1 : len(host)-1]"] := by decide
+
+theorem audited_shape_serverHandleBasicAuth : Gen.C06.serverHandleBasicAuth_shape =
+    ["header[\"Proxy-Authorization\"]", "if len(creds) > len(prefix) && (creds[0] == 'B' || creds[0] == 'b') && (creds[1] == 'a' || creds[1] == 'A') && (creds[2] == 's' || creds[2] == 'S') && (creds[3] == 'i' || creds[3] == 'I') && (creds[4] == 'c' || creds[4] == 'C') && creds[5] == ' ' => return", "creds[0]", "creds[0]", "creds[1]", "creds[1]", "creds[2]", "creds[2]", "creds[3]", "creds[3]", "creds[4]", "creds[4]", "creds[5]", "creds[len(prefix):]"] := by decide
+
+theorem audited_shape_ShadowStreamConnRead : Gen.C06.ShadowStreamConnRead_shape =
+    ["if cap(b) < streamReadMinBufferSize => return", "panic", "b[:2+tagSize]", "call Uint16", "b[:length+tagSize]"] := by decide
+
+theorem audited_shape_StreamServerHandleStream : Gen.C06.StreamServerHandleStream_shape =
+    ["if bufferLen <= cap(writeBuf)", "writeBuf[:bufferLen]", "b[:reservedStart]", "if n > 0 && s.unsafeFallbackAddr.IsValid() => return", "readBuf[:n]", "b[:urspLen]", "b[urspLen:identityHeaderStart]", "b[fixedLengthHeaderStart:reservedStart]", "b[reservedStart:]", "b[identityHeaderStart:fixedLengthHeaderStart]", "conv [IdentityHeaderLength]byte", "if bufferLen <= cap(writeBuf)", "writeBuf[:bufferLen]"] := by decide
+
+theorem audited_shape_ShadowStreamClientInitRead : Gen.C06.ShadowStreamClientInitRead_shape =
+    ["b[:bufferLen]", "c.ShadowStreamConn.getReadBuf()[:bufferLen]", "hb[:urspLen]", "hb[urspLen:fixedLengthHeaderStart]", "hb[fixedLengthHeaderStart:]", "c.requestSalt[:c.requestSaltLen]"] := by decide
+
+theorem audited_shape_readOnceExpectFull : Gen.C06.readOnceExpectFull_shape =
+    ["if err == io.EOF && 0 < n && n < len(b) => return", "if n < len(b) => return"] := by decide
+
+theorem audited_shape_clientNegotiateAuthMethod : Gen.C06.clientNegotiateAuthMethod_shape =
+    ["if len(b) < 3 => return", "panic", "b[0]", "b[1]", "b[2]", "b[:3]", "b[:2]", "b[0]", "b[0]", "b[1]", "b[1]"] := by decide
+
+theorem audited_shape_clientDoUsernamePasswordAuth : Gen.C06.clientDoUsernamePasswordAuth_shape =
+    ["if len(b) < 2 => return", "panic", "b[:2]", "b[0]", "b[0]", "b[1]"] := by decide
+
+theorem audited_shape_clientDoRequest : Gen.C06.clientDoRequest_shape =
+    ["if len(b) < 3+MaxAddrLen => return", "panic", "b[0]", "b[1]", "b[2]", "b[3:]", "b[:3+n]", "b[:5]", "b[0]", "b[0]", "b[3:3]", "b[3:5]", "b[1]", "b[1]"] := by decide
+
+theorem audited_shape_ParseSessionIDAndPacketID : Gen.C06.ParseSessionIDAndPacketID_shape =
+    ["call Uint64", "call Uint64", "b[8:]"] := by decide
 
 end SSV.C06
 
@@ -364,3 +394,13 @@ end SSV.C06
 #print axioms SSV.C06.shape_serverHandleUsernamePassword
 #print axioms SSV.C06.shape_serverHandleRequest
 #print axioms SSV.C06.shape_replyWithStatus
+#print axioms SSV.C06.audited_shape_hostHeaderToAddr
+#print axioms SSV.C06.audited_shape_serverHandleBasicAuth
+#print axioms SSV.C06.audited_shape_ShadowStreamConnRead
+#print axioms SSV.C06.audited_shape_StreamServerHandleStream
+#print axioms SSV.C06.audited_shape_ShadowStreamClientInitRead
+#print axioms SSV.C06.audited_shape_readOnceExpectFull
+#print axioms SSV.C06.audited_shape_clientNegotiateAuthMethod
+#print axioms SSV.C06.audited_shape_clientDoUsernamePasswordAuth
+#print axioms SSV.C06.audited_shape_clientDoRequest
+#print axioms SSV.C06.audited_shape_ParseSessionIDAndPacketID
